@@ -558,8 +558,8 @@ func TestC02(t *testing.T) {
 	}
 
 	cli := c02CLI.On(col, "rapid: templates over environment variables only (all values are strings), run through the built cmd/liquid binary with --env (template on stdin and as a file argument, with and without --strict) and through Engine.ParseAndRenderString with the same variables; oracle: same stdout, or the library's error message on stderr with a non-zero exit and empty stdout. Distinct by template+environment+mode", false)
-	pieces := []string{"{{ VS_A }}", "{{ VS_B | upcase }}", "{% if VS_A == VS_B %}eq{% else %}ne{% endif %}", "{{ VS_A | append: VS_B | size }}", "{% assign x = VS_B | split: ',' %}{% for p in x %}[{{ p }}]{% endfor %}", "text ", "\n", "{{ VS_MISSING }}", "{{ VS_A | truncate: 4 }}", "{% capture c %}{{ VS_A }}{{ VS_A }}{% endcapture %}{{ c | size }}", "{{ VS_A | nosuchfilter }}", "{% endif %}", "{{ 'x' | divided_by: 0 }}", "{{ VS_B | escape }}"}
-	vals := []string{"", "a", "A,b,,c", "héllo wörld", " padded ", "<b>&</b>", "12", "line1\\nline2"}
+	pieces := []string{"{{ VS_A }}", "{{ VS_B | upcase }}", "{% if VS_A == VS_B %}eq{% else %}ne{% endif %}", "{{ VS_A | append: VS_B | size }}", "{% assign x = VS_B | split: ',' %}{% for p in x %}[{{ p }}]{% endfor %}", "text ", "\n", "{{ VS_MISSING }}", "{{ VS_A | truncate: 4 }}", "{% capture c %}{{ VS_A }}{{ VS_A }}{% endcapture %}{{ c | size }}", "{{ VS_A | nosuchfilter }}", "{% endif %}", "{{ 'x' | divided_by: 0 }}", "{{ VS_B | escape }}", "100% ", "%d %s %v%%", "{{ VS_A | url_encode }}"}
+	vals := []string{"", "a", "A,b,,c", "héllo wörld", " padded ", "<b>&</b>", "12", "line1\\nline2", "50% off", "%s%d%!", "a b&c"}
 	col.Rapid(cli.Sub, env.PerShard(env.Pick(600, 6000)), func(t *rapid.T) {
 		c := &c02CLICase{Src: strings.Join(rapid.SliceOfN(rapid.SampledFrom(pieces), 1, 6).Draw(t, "src"), ""),
 			Env:    map[string]string{"VS_A": rapid.SampledFrom(vals).Draw(t, "a"), "VS_B": rapid.SampledFrom(vals).Draw(t, "b")},
